@@ -63,6 +63,25 @@ def case_strategy(draw):
     subjects = []
     shape_nd = draw(st.sampled_from([1, 2, 3]))
     for nm in nms:
+        special = draw(st.integers(0, 5))
+        if special == 0:
+            # one long 1-D structure: tiny relative differences are written in exponent notation (5e-05)
+            n = draw(st.sampled_from([12000, 20000, 30011]))
+            extra = draw(st.integers(1, 3))
+            a = defined[0]
+            subjects.append({"name": nm, "rle": [[a, a, n], [a, 0, extra], [0, 0, 2]] if draw(st.booleans()) else [[a, a, n], [0, a, extra], [0, 0, 2]]})
+            continue
+        if special == 1 and groups is None and it != "SEMANTIC":
+            # k instances with identical scores: the standard deviation is 0 or ~1e-16
+            k = draw(st.integers(3, 5))
+            tp_, tr_ = draw(st.sampled_from([([1, 1, 1, 1, 0, 0], [1, 1, 1, 1, 1, 1]), ([1, 1, 0], [1, 1, 1]), ([0, 1, 1, 1, 1], [1, 1, 1, 1, 0]), ([1, 1, 1, 1, 1, 1, 1], [1, 1, 1, 1, 1, 1, 0])]))
+            rle = []
+            for j in range(k):
+                for a_, b_ in zip(tp_, tr_):
+                    rle.append([a_ * (j + 1), b_ * (j + 1), 1])
+                rle.append([0, 0, 2])
+            subjects.append({"name": nm, "rle": rle})
+            continue
         pred, ref = draw(gen.pair(ndims=(shape_nd,), k=len(defined), derived_weight=3))
         z = draw(st.sampled_from(["", "", "", "pred", "ref", "both"]))
         if z in ("pred", "both"):
@@ -114,8 +133,12 @@ def check(case, stats):
         ev2 = lib.evaluator(cfg)
         expected = {}
         for s in case["subjects"]:
-            pred = np.array(s["pred"]).astype(case["dtype"])
-            ref = np.array(s["ref"]).astype(case["dtype"])
+            if "rle" in s:
+                pred = np.concatenate([np.full(n, a) for a, b, n in s["rle"]]).astype(case["dtype"])
+                ref = np.concatenate([np.full(n, b) for a, b, n in s["rle"]]).astype(case["dtype"])
+            else:
+                pred = np.array(s["pred"]).astype(case["dtype"])
+                ref = np.array(s["ref"]).astype(case["dtype"])
             H.lib_call(agg.evaluate, pred, ref, s["name"])
             res = H.lib_call(ev2.evaluate, pred, ref)
             with H.quiet():
@@ -125,6 +148,7 @@ def check(case, stats):
         else:
             stat = H.lib_call(Panoptica_Statistic.from_file, out)
         missing = False
+        exponent_form = False
         if sorted(stat.groupnames) != sorted(gnames):
             raise Violation(f"loaded group names {sorted(stat.groupnames)} != evaluator groups {sorted(gnames)}")
         if list(stat.subjectnames) != [s["name"] for s in case["subjects"]]:
@@ -144,6 +168,8 @@ def check(case, stats):
                         raise Violation(f"value {k} reported for subject {s['name']!r} group {g!r} has no column in the file")
                     want = expected_cell(v)
                     got = one[g][k]
+                    if isinstance(want, float) and want != 0 and "e" in repr(want):
+                        exponent_form = True
                     if want is None:
                         missing = True
                     ok = (want is None and got is None) or (want is not None and got is not None and got == want)
@@ -155,7 +181,7 @@ def check(case, stats):
         stats.record(case, len(gnames) >= 2 or special or missing,
                      [f"groups={len(gnames) if case['groups'] else 0}", f"subjects={len(case['subjects'])}", f"input={case['input']}"]
                      + (["special_name"] if special else []) + (["missing_value"] if missing else [])
-                     + (["dash_in_group"] if any("-" in g for g in gnames) else [])
+                     + (["dash_in_group"] if any("-" in g for g in gnames) else []) + (["value_in_exponent_notation"] if exponent_form else [])
                      + (["subject_named_subject_name"] if any(s["name"] == "subject_name" for s in case["subjects"]) else []))
     finally:
         shutil.rmtree(d, ignore_errors=True)
